@@ -149,6 +149,14 @@ class NamespaceMapper(MutableMapping[str, str]):
         """Returns the XML declarations from decoded element data."""
         return None
 
+    def is_unqualified(self, obj: Any) -> bool:
+        """
+        Returns `True` if the decoded data undeclare the default namespace (xmlns=""),
+        so its unprefixed name doesn't belong to the default namespace in scope.
+        """
+        xmlns = self.get_xmlns_from_data(obj)
+        return bool(xmlns) and ('', '') in xmlns
+
     def get_namespaces(self, namespaces: Optional[NsmapType] = None,
                        root_only: bool = True) -> dict[str, str]:
         """
